@@ -173,6 +173,14 @@ func Run(c *hx.Ctx) error {
 					c.Emit(fmt.Sprintf("og %d %s vals %s", ps.id, q.opTail(), got.values()), got.answer(exact))
 				} else {
 					cls := classify(srv, ps, q, kind, &got, &want)
+					if strings.HasPrefix(cls, "unexplained:") {
+						// ask again: an answer that differs between two executions of the same query on
+						// the same data is a finding of its own (seen under load in long runs only)
+						got2 := srv.promQuery(ps.db, q)
+						if k2, _ := diffResults(&got2, &want); k2 == "" {
+							cls = "answer-not-reproducible"
+						}
+					}
 					line := c.Emit(fmt.Sprintf("og-dev %s %d %s", cls, ps.id, q.opTail()), "dev "+cls)
 					full := fmt.Sprintf("query=%q start=%d end=%d step=%d lookback=%d layout=%d: %s", q.text, q.start, q.end, q.step, q.lb, ps.variant, desc)
 					if !knownClass(cls) && !shrunk {
